@@ -36,8 +36,15 @@ extern "C" int getc(FILE *f)
 }
 extern "C" int putc(int c, FILE *f) { return c; }
 extern "C" int tolower(int c) { return (c >= 'A' && c <= 'Z') ? c + 32 : c; }
-static int vs_snprintf(char *buf, size_t n) { OBL(n >= 2 && n <= __CPROVER_OBJECT_SIZE(buf) - __CPROVER_POINTER_OFFSET(buf), "C16.tokens: snprintf size argument fits the token buffer"); buf[0] = '1'; buf[1] = 0; return 1; }
-#define snprintf(b, n, ...) vs_snprintf(b, n)
+/* snprintf contract: the size argument fits the token buffer, and (C04) every number the tokenizer re-prints into the token is a
+   signed decimal ("%d" or "%ld"): that is the spelling Var::set_int(const char *) reads back exactly (atoll) for all 64-bit values */
+static int vs_snprintf(char *buf, size_t n, const char *f)
+{
+  OBL(n >= 2 && n <= __CPROVER_OBJECT_SIZE(buf) - __CPROVER_POINTER_OFFSET(buf), "C16.tokens: snprintf size argument fits the token buffer");
+  OBL(f[0] == '%' && ((f[1] == 'd' && f[2] == 0) || (f[1] == 'l' && f[2] == 'd' && f[3] == 0)), "C04.lit: a numeric literal is re-printed into the token as a signed decimal (the form the expression evaluator reads back exactly)");
+  buf[0] = '1'; buf[1] = 0; return 1;
+}
+#define snprintf(b, n, f, ...) vs_snprintf(b, n, f)
 #define printf(...) (g_errors++, 0)
 #include "core/tokens.cpp"
 #undef snprintf
